@@ -63,6 +63,9 @@ Definition env_spec (nd td : dict) (prefix : str) (pfs : fields) (env : list (st
   : outcome (list val) :=
   let afs := alias_fields env_alias_keys pfs in
   let pts := paths afs in
+  (* two leaves whose Go names flatten to the same name cannot be told apart: error *)
+  if has_dup (map (fun pt => encode_upper_camel_t (flat_map (fun c => if c_anon c then [] else [c_name c]) (fst pt))) pts)
+  then Err 4 else
   vars <- omapM (fun pt => doc_var nd td prefix (fst pt)) pts ;;
   vals <- omapM (fun pv => cast (snd (fst pv)) (lookup_env env (snd pv))) (combine pts vars) ;;
   vs <- populate afs vals ;;
@@ -119,7 +122,7 @@ Fixpoint first_class (nd td : dict) (prefix : str) (ls : list leaf) (pts : list 
 Definition known_class (nd td : dict) (prefix : str) (pfs : fields) : N :=
   let afs := alias_fields env_alias_keys pfs in
   match flatten env_cfg afs with
-  | Ok ls => if has_dup (map lf_name ls) then 4 else first_class nd td prefix ls (paths afs)
+  | Ok ls => first_class nd td prefix ls (paths afs)
   | _ => 0
   end.
 
@@ -143,7 +146,7 @@ Definition check (c : c11case) : N :=
       else if corr then
         let k := known_class nd td prefix pfs in
         if k =? 0 then 3
-        else if is_panic impl && negb (k =? 4) then 3   (* the only panic with a known class: colliding names *)
+        else if is_panic impl then 3     (* no panic is ever explained by a known class *)
         else 10 + k
       else 3
   end.
